@@ -224,7 +224,9 @@ func (s *Sim) GC() {
 	}
 	s.Counters[CtGCDropped] += int64(dropped)
 	s.Tracef("  FAULT gc: primary->victim, %d victim objects dropped", dropped)
-	if s.Passthrough {
+	if s.Passthrough && s.realGCs < 64 {
+		// real collections are expensive: a run forces at most 64 of them
+		s.realGCs++
 		realGC()
 	}
 	// Finalizers the library registered run now, as a task of their own.
